@@ -96,6 +96,12 @@ def gen_spec(rng, tier="quick", for_crash=False):
             o[k] = [rng.choice(COLORS) for _ in range(rng.randint(1, 4))]
         elif c < 0.3:
             o[k] = {"fn": [rng.choice(COLORS), rng.choice(COLORS)]}     # a function of the datum (by width parity)
+    if rng.random() < 0.2:
+        o["latex"] = {k: v for k, v in {"tickCross": rng.random() < 0.5, "linkThickness": rng.choice(["thin", "very thick"]),
+                                        "reproducible": rng.random() < 0.5, "fontsize": rng.choice(["11pt", "10pt"]),
+                                        "preamble": rng.choice(["", "\\usepackage{lmodern}"])}.items() if rng.random() < 0.6}
+    if rng.random() < 0.1:
+        o["textXOffset"] = rng.choice(["0.15em", "0.3em"])
     if kind != "time" and rng.random() < 0.2:   # explicit domain covering the data
         if kind == "number":
             o["domain"] = [min(ts) - 1, max(ts) + 2.5]
